@@ -189,9 +189,14 @@ class Ctx:
 CTX = Ctx()
 
 
+RESET_HOOKS = []
+
+
 def reset(sparse=False):
     global CTX
     CTX = Ctx(sparse)
+    for h in RESET_HOOKS:
+        h()
     return CTX
 
 
